@@ -142,8 +142,25 @@ func init() {
 		if s.IsConst() {
 			return ret1(MkStr(strings.TrimSpace(s.SV)))
 		}
-		throwf("strings.TrimSpace symbolic")
-		return nil
+		// ASCII white space only (" \t\n\v\f\r"); the Unicode spaces TrimSpace also strips (U+0085, U+00A0, ...)
+		// are treated as ordinary characters: counterexamples are replayed natively before they are reported
+		wsChar := `(re.union (str.to_re " ") (str.to_re "\u{9}") (str.to_re "\u{a}") (str.to_re "\u{b}") (str.to_re "\u{c}") (str.to_re "\u{d}"))`
+		isWs := func(b byte) bool { return b == ' ' || (b >= 9 && b <= 13) }
+		wsStar := func(x string) bool {
+			for i := 0; i < len(x); i++ {
+				if !isWs(x[i]) {
+					return false
+				}
+			}
+			return true
+		}
+		wsOne := func(x string) bool { return len(x) == 1 && isWs(x[0]) }
+		pre, t, post := FreshVar("trim.pre", SStr), FreshVar("trim.mid", SStr), FreshVar("trim.post", SStr)
+		cond := And(Eq(s, Concat(pre, t, post)),
+			InRe(pre, "(re.* "+wsChar+")", wsStar), InRe(post, "(re.* "+wsChar+")", wsStar),
+			Or(Eq(Len(t), MkI(0)),
+				And(Not(InRe(StrAt(t, MkI(0)), wsChar, wsOne)), Not(InRe(StrAt(t, Sub(Len(t), MkI(1))), wsChar, wsOne)))))
+		return []Outcome{{Cond: cond, Ret: t}}
 	})
 	reg("strings.Join", func(c *CallCtx, a []Value) []Outcome {
 		sl, sep := a[0].(*SliceV), a[1].(*Term)
